@@ -97,7 +97,7 @@ def run(rep, tier, seed):
     mg = GM.ModelGen(rng, 4, 7, 14)
     cases = []
     for i in range(n):
-        m = mg.model(branchpoints=(rng.random() < 0.4))
+        m = mg.model(branchpoints=(rng.random() < 0.4), rich_edges=True)
         # XML-special characters in every text the writer emits: '<', '>', '&' occur in guards/invariants naturally
         cases.append((m, Case("w%d" % i, [Step("parse_doc", 0, "xml_buffer", 1, 1, GM.render_xml(m, rng)), Step("write_xml", 0)], timeout=60)))
     for name, xml in workloads.test_models():
